@@ -1139,7 +1139,7 @@ def run(ck: Check) -> None:
     lab = Lab()
     try:
         campaign_listing_corpus(ck, lab)
-        campaign_hashseed_lists(ck, lab, detsets.quick_family(ck.rng.fork("list-keywords"), e2e.MODEL_KINDS, 1 if quick else 8), LIST_TITLE, chunks=2 if quick else 12)
+        campaign_hashseed_lists(ck, lab, detsets.quick_family(ck.rng.fork("list-keywords"), e2e.MODEL_KINDS, 1 if quick else 8), LIST_TITLE, chunks=1 if quick else 12)
         campaign_history_pairs(ck, lab, 16 if quick else 100, fresh_each=not quick)
         campaign_differential(ck, lab, 60 if quick else 400, 6 if quick else 24, [0, 1, 2, 3] if quick else [0, 1, 2, 3, 4, 5, "random", 7])
         campaign_projects(ck, lab, 16 if quick else 90, 5 if quick else 12)
